@@ -192,7 +192,7 @@ func TestLifecycle(t *testing.T) {
 				}
 				trace.U(3, uint64(l.info.SSRC))
 				logOp("BindLocalStream %#x", l.info.SSRC)
-				l.sink = &kit.RTPSink{}
+				l.sink = &kit.RTPSink{HoldYields: 20} // a slow transport: asynchronous writers are still busy when lifecycle calls arrive
 				guard("BindLocalStream", func() { l.w = ic.BindLocalStream(l.info, l.sink) })
 				l.bound, l.sent = true, 0
 				l.binds++
@@ -267,6 +267,13 @@ func TestLifecycle(t *testing.T) {
 				}
 				trace.U(6, uint64(l.info.SSRC))
 				logOp("UnbindLocalStream %#x", l.info.SSRC)
+				// a NACK for the last 17 packets of this stream arrives just before (the statement limits what may follow an Unbind for feedback and
+				// reports only, so retransmissions still in progress are not judged here; the same stimulus before Close is, see "close")
+				if rtcpIn != nil && l.sent > 0 && rapid.Bool().Draw(t, "nackJustBefore") {
+					raw, _ := rtcp.Marshal([]rtcp.Packet{&rtcp.TransportLayerNack{SenderSSRC: 9, MediaSSRC: l.info.SSRC, Nacks: []rtcp.NackPair{{PacketID: l.seq - 16, LostPackets: 0xffff}}}})
+					rtcpSrc.Push(raw)
+					guard("RTCP Read", func() { _, _, _ = rtcpIn.Read(make([]byte, 1500), interceptor.Attributes{}) })
+				}
 				guard("UnbindLocalStream", func() { ic.UnbindLocalStream(l.info) })
 				l.bound = false
 				from := rtcpSink.Len()
@@ -479,10 +486,28 @@ func TestLifecycle(t *testing.T) {
 						rets[c] = closeRet{at: time.Now(), inFlight: rtcpSink.InFlight()}
 					}(c)
 				}
+				if !concurrent && rtcpIn != nil && rapid.Bool().Draw(t, "nackJustBeforeClose") {
+					for _, l := range locals {
+						if l.bound && l.sent > 0 { // asynchronous answers (retransmissions) to this must have finished when Close returns
+							raw, _ := rtcp.Marshal([]rtcp.Packet{&rtcp.TransportLayerNack{SenderSSRC: 9, MediaSSRC: l.info.SSRC, Nacks: []rtcp.NackPair{{PacketID: l.seq - 16, LostPackets: 0xffff}}}})
+							rtcpSrc.Push(raw)
+							guard("RTCP Read", func() { _, _, _ = rtcpIn.Read(make([]byte, 1500), interceptor.Attributes{}) })
+						}
+					}
+				}
+				rtpInFlight := 0
 				guard("Close", func() {
 					_ = ic.Close()
 					rets[0] = closeRet{at: time.Now(), inFlight: rtcpSink.InFlight()}
+					for _, l := range locals {
+						if l.sink != nil {
+							rtpInFlight += l.sink.InFlight()
+						}
+					}
 				})
+				if !concurrent && rtpInFlight > 0 { // nobody but the interceptor's own goroutines can be writing
+					t.Fatalf("%s: Close returned while %d RTP write(s) by the interceptor's goroutines were still in progress (ops %v)", name, rtpInFlight, ops)
+				}
 				if o := kit.Guard(deadline, cwg.Wait); !o.OK() {
 					t.Fatalf("%s: one of %d concurrent Close calls did not return (ops %v): %s", name, closers, ops, o)
 				}
